@@ -77,7 +77,14 @@ func (f *idsetFam) op(a []string) string {
 				return "bad-op"
 			}
 		}
-		f.bf = crypto.BitfieldFromBytes(b)
+		// the byte string is handed over as a PREFIX of a larger buffer whose remaining bytes are not zero (a decoder
+		// that slices a receive buffer does that): growing the set later must not let them in (C19-r6m1)
+		buf := make([]byte, len(b)+9)
+		for i := range buf {
+			buf[i] = 0xff
+		}
+		copy(buf, b)
+		f.bf = crypto.BitfieldFromBytes(buf[:len(b)])
 		return fmt.Sprintf("len=%d ids=%s", f.bf.Len(), idList(&f.bf))
 	case "scheme":
 		if len(a) != 3 {
